@@ -48,8 +48,103 @@ func c15lambdas() []string {
 	return []string{"01", "02", vx.Hex(pm1.Bytes()), vx.Hex(s.Bytes())}
 }
 
+// c15structLambdas: scale factors whose value - or whose Montgomery form (lambda * 2^256 mod p) - has a structured limb
+// pattern: single bits across all limb halves, the high or the low half of every limb, one limb only. With Z = lambda the
+// representative's Z coordinate carries the pattern, so a zero test, an equality or a conversion that looks at folded or
+// truncated limbs misjudges exactly these representatives.
+func c15structLambdas() []string {
+	var pats []*big.Int
+	for _, k := range []uint{0, 31, 32, 33, 63, 64, 95, 96, 127, 128, 160, 191, 192, 224, 254, 255} {
+		pats = append(pats, new(big.Int).Lsh(big.NewInt(1), k))
+	}
+	hi, lo := new(big.Int), new(big.Int)
+	for limb := uint(0); limb < 4; limb++ {
+		hi.Or(hi, new(big.Int).Lsh(new(big.Int).SetUint64(0xabcdef1200000000), 64*limb))
+		lo.Or(lo, new(big.Int).Lsh(new(big.Int).SetUint64(0x0000000089abcdef), 64*limb))
+		pats = append(pats, new(big.Int).Lsh(new(big.Int).SetUint64(0xffffffffffffffff), 64*limb))
+	}
+	pats = append(pats, hi, lo, new(big.Int).Lsh(new(big.Int).SetUint64(0xffffffff00000000), 192))
+	R := new(big.Int).Lsh(big.NewInt(1), 256)
+	Rinv := new(big.Int).ModInverse(R, sm2ref.P)
+	seen := map[string]bool{}
+	var out []string
+	add := func(v *big.Int) {
+		v = new(big.Int).Mod(v, sm2ref.P)
+		if v.Sign() == 0 {
+			return
+		}
+		h := vx.Hex(v.Bytes())
+		if !seen[h] {
+			seen[h] = true
+			out = append(out, h)
+		}
+	}
+	for _, m := range pats {
+		add(m)                         // the value itself is the pattern
+		add(new(big.Int).Mul(m, Rinv)) // the Montgomery form is the pattern
+	}
+	return out
+}
+
+// c15convert: Bytes / Bytes_Unsafe / GetAffineX / GetAffineX_Unsafe of one representative against the affine value;
+// every returned object is then overwritten by the caller and the conversion repeated (results are the caller's: nothing
+// the library keeps may be reachable through them).
+func c15convert(r *vx.R, cs c15case, pts map[string]sm2ref.Point) {
+	a, la := cs.A, cs.LA
+	p := vxRep(pts[a], new(big.Int).SetBytes(vx.UnHex(la)))
+	var want []byte
+	if pts[a].Inf {
+		want = []byte{0}
+	} else {
+		want = append(append([]byte{4}, sm2ref.Bytes32(pts[a].X)...), sm2ref.Bytes32(pts[a].Y)...)
+	}
+	wx := new(big.Int)
+	if !pts[a].Inf {
+		wx = pts[a].X
+	}
+	for round := 0; round < 2; round++ {
+		bs, bu := p.Bytes(), p.Bytes_Unsafe()
+		if !bytes.Equal(bs, want) {
+			r.Violation(fmt.Sprintf("pt:Bytes:round%d", round), fmt.Sprintf("Bytes of %s (lambda %s) = %x", a, la, bs), cs)
+		}
+		if !bytes.Equal(bu, want) {
+			r.Violation(fmt.Sprintf("pt:Bytes_Unsafe:round%d", round), fmt.Sprintf("Bytes_Unsafe of %s (lambda %s) = %x", a, la, bu), cs)
+		}
+		x1, x2 := p.GetAffineX(), p.GetAffineX_Unsafe()
+		if x1.Cmp(wx) != 0 {
+			r.Violation(fmt.Sprintf("pt:GetAffineX:round%d", round), fmt.Sprintf("GetAffineX of %s (lambda %s) = %x", a, la, x1), cs)
+		}
+		if x2.Cmp(wx) != 0 {
+			r.Violation(fmt.Sprintf("pt:GetAffineX_Unsafe:round%d", round), fmt.Sprintf("GetAffineX_Unsafe of %s (lambda %s) = %x", a, la, x2), cs)
+		}
+		if (p.IsInfinity() == 1) != pts[a].Inf {
+			r.Violation("pt:IsInfinity", fmt.Sprintf("IsInfinity of %s (lambda %s) = %d", a, la, p.IsInfinity()), cs)
+		}
+		if round == 0 {
+			back, err := NewSM2Generator().SetBytes(bs)
+			if err != nil || !vxToRef(back).Equal(pts[a]) {
+				r.Violation("pt:roundtrip", "SetBytes(Bytes(P)) != P", cs)
+			}
+		}
+		// the caller computes on what it got (as VerifyHashed does with the affine x): round 1 repeats the conversions
+		for i := range bs {
+			bs[i] ^= 0x5a
+		}
+		for i := range bu {
+			bu[i] ^= 0xa5
+		}
+		x1.Add(x1, big.NewInt(0x1234567)).Lsh(x1, 3)
+		x2.SetInt64(-77)
+	}
+	r.Shape("convert:" + a + ":" + la[:2])
+}
+
 func c15eval(r *vx.R, c c15case, pts map[string]sm2ref.Point) {
 	r.Eval(1)
+	if c.Op == "convert" {
+		c15convert(r, c, pts)
+		return
+	}
 	la, lb := new(big.Int).SetBytes(vx.UnHex(c.LA)), new(big.Int).SetBytes(vx.UnHex(c.LB))
 	ra, rb := pts[c.A], pts[c.B]
 	p1 := vxRep(ra, la)
@@ -175,6 +270,19 @@ func TestVX_C15_Arith(t *testing.T) {
 		c15eval(r, c, pts)
 		r.Sample(c)
 	}
+	sls := c15structLambdas()
+	for ai, a := range names {
+		if !vx.Thorough() && ai%3 != 0 && a != "G" && a != "O" {
+			continue
+		}
+		for _, la := range sls {
+			run(c15case{Op: "double", A: a, B: a, LA: la, LB: la, Alias: 0})
+			run(c15case{Op: "negate", A: a, B: a, LA: la, LB: la, Alias: 0})
+			run(c15case{Op: "add", A: a, B: "G", LA: la, LB: ls[0], Alias: 0})
+			run(c15case{Op: "add", A: "S1", B: a, LA: ls[1], LB: la, Alias: 0})
+			run(c15case{Op: "convert", A: a, LA: la, B: a, LB: la})
+		}
+	}
 	for _, a := range names {
 		for _, b := range names {
 			for _, la := range ls {
@@ -200,40 +308,7 @@ func TestVX_C15_Arith(t *testing.T) {
 					}
 				}
 			}
-			// conversions on this representative
-			if vx.MineIdx(n) {
-				p := vxRep(pts[a], new(big.Int).SetBytes(vx.UnHex(la)))
-				r.Eval(1)
-				cs := c15case{Op: "convert", A: a, LA: la, B: a, LB: la}
-				bs, bu := p.Bytes(), p.Bytes_Unsafe()
-				var want []byte
-				if pts[a].Inf {
-					want = []byte{0}
-				} else {
-					want = append(append([]byte{4}, sm2ref.Bytes32(pts[a].X)...), sm2ref.Bytes32(pts[a].Y)...)
-				}
-				if !bytes.Equal(bs, want) {
-					r.Violation("pt:Bytes", fmt.Sprintf("Bytes of %s (lambda %s) = %x", a, la, bs), cs)
-				}
-				if !bytes.Equal(bu, want) {
-					r.Violation("pt:Bytes_Unsafe", fmt.Sprintf("Bytes_Unsafe of %s (lambda %s) = %x", a, la, bu), cs)
-				}
-				wx := new(big.Int)
-				if !pts[a].Inf {
-					wx = pts[a].X
-				}
-				if p.GetAffineX().Cmp(wx) != 0 {
-					r.Violation("pt:GetAffineX", "GetAffineX wrong", cs)
-				}
-				if p.GetAffineX_Unsafe().Cmp(wx) != 0 {
-					r.Violation("pt:GetAffineX_Unsafe", "GetAffineX_Unsafe wrong", cs)
-				}
-				back, err := NewSM2Generator().SetBytes(bs)
-				if err != nil || !vxToRef(back).Equal(pts[a]) {
-					r.Violation("pt:roundtrip", "SetBytes(Bytes(P)) != P", cs)
-				}
-				r.Shape("convert:" + a + ":" + la[:2])
-			}
+			run(c15case{Op: "convert", A: a, LA: la, B: a, LB: la})
 		}
 	}
 }
